@@ -478,6 +478,17 @@ class Samples(BaseSamples):
     def compute_weights(self):
         """Compute the posterior weights."""
         self.log_w = self.log_likelihood + self.log_prior - self.log_q
+        if len(self.x) == 0:
+            # A set without samples (e.g. a selection that keeps no row) has
+            # weights of length zero and nothing to summarise.
+            nan = asarray(math.nan, self.xp)
+            self.weights = self.xp.exp(self.log_w)
+            self.log_evidence = nan
+            self.evidence = nan
+            self.evidence_error = nan
+            self.log_evidence_error = nan
+            self.effective_sample_size = asarray(0.0, self.xp)
+            return
         self.log_evidence = asarray(logsumexp(self.log_w), self.xp) - math.log(
             len(self.x)
         )
@@ -615,6 +626,9 @@ class Samples(BaseSamples):
                 sliced.weights = self.array_to_namespace(self.weights[idx])
             else:
                 sliced.weights = sliced.xp.exp(sliced.log_w)
+            if len(sliced.x) == 0:
+                sliced.effective_sample_size = asarray(0.0, sliced.xp)
+                return sliced
             log_w = sliced.log_w - sliced.xp.max(sliced.log_w)
             sliced.effective_sample_size = sliced.xp.exp(
                 asarray(logsumexp(log_w) * 2 - logsumexp(log_w * 2), sliced.xp)
